@@ -5,6 +5,7 @@ import (
 	"go/constant"
 	"go/token"
 	"go/types"
+	"sort"
 	"strings"
 
 	"verif/engine/smt"
@@ -172,10 +173,79 @@ func (in *Interp) Assume(c *smt.Term) {
 }
 
 // Feasible asks the solver whether pc ∧ extra is satisfiable. Unknown counts as feasible.
+// Only the path-condition conjuncts that (transitively) share a variable with extra are sent
+// (constraint independence): dropping conjuncts can only turn unsat into sat, i.e. keep an infeasible
+// path alive, never lose a feasible one. Assertion queries always use the full path condition.
 func (in *Interp) Feasible(extra ...*smt.Term) bool {
-	q := append(append([]*smt.Term{}, in.PC...), extra...)
+	if len(extra) == 0 {
+		r, _, _ := in.Solver.Check(in.PC, nil)
+		return r != smt.Unsat
+	}
+	q := in.slice(extra)
+	key := ""
+	{
+		ss := make([]string, len(q))
+		for i, t := range q {
+			ss[i] = t.S
+		}
+		sort.Strings(ss)
+		key = strings.Join(ss, "\n")
+	}
+	if v, ok := in.X.feasCache.Load(key); ok {
+		return v.(bool)
+	}
 	r, _, _ := in.Solver.Check(q, nil)
-	return r != smt.Unsat
+	res := r != smt.Unsat
+	if r != smt.Unknown {
+		in.X.feasCache.Store(key, res)
+	}
+	return res
+}
+
+func (in *Interp) slice(extra []*smt.Term) []*smt.Term {
+	vars := map[string]bool{}
+	addVars := func(t *smt.Term) bool {
+		added := false
+		for _, s := range t.Syms {
+			if smt.IsVar(s) && !vars[s] {
+				vars[s] = true
+				added = true
+			}
+		}
+		return added
+	}
+	for _, e := range extra {
+		addVars(e)
+	}
+	used := make([]bool, len(in.PC))
+	for changed := true; changed; {
+		changed = false
+		for i, p := range in.PC {
+			if used[i] {
+				continue
+			}
+			hit := false
+			for _, s := range p.Syms {
+				if vars[s] {
+					hit = true
+					break
+				}
+			}
+			if hit {
+				used[i] = true
+				if addVars(p) {
+					changed = true
+				}
+			}
+		}
+	}
+	var q []*smt.Term
+	for i, p := range in.PC {
+		if used[i] {
+			q = append(q, p)
+		}
+	}
+	return append(q, extra...)
 }
 
 // Branch decides a symbolic condition, forking the exploration when both sides are feasible.
@@ -196,6 +266,16 @@ func (in *Interp) Branch(c *smt.Term) bool {
 	var d int
 	if in.pos < len(in.Prefix) {
 		d = in.Prefix[in.pos]
+	} else if dec, val, both := in.quickDecide(c); dec {
+		if both {
+			d = 1
+			alt := append(append([]int{}, in.Decisions...), 0)
+			in.X.push(alt)
+		} else if val {
+			d = 1
+		} else {
+			d = 0
+		}
 	} else if in.freeBoolVar(c) {
 		d = 1
 		alt := append(append([]int{}, in.Decisions...), 0)
@@ -220,6 +300,128 @@ func (in *Interp) Branch(c *smt.Term) bool {
 	}
 	in.PC = append(in.PC, nc)
 	return false
+}
+
+func isVarTerm(t *smt.Term) bool {
+	return t.Op == "" && !t.Const && len(t.Syms) == 1 && t.S == t.Syms[0]
+}
+
+// quickDecide decides (dis)equalities between string variables and constants syntactically when the
+// variables occur in the path condition only in literals of the form (= x c) / (not (= x c)).
+// Returns decided=false whenever it is not certain (the solver is asked then).
+//   both=true: both outcomes are feasible; otherwise val is the forced outcome.
+func (in *Interp) quickDecide(c *smt.Term) (decided, val, both bool) {
+	neg := false
+	if c.Op == "not" && len(c.Args) == 1 {
+		neg = true
+		c = c.Args[0]
+	}
+	if c.Op != "=" || len(c.Args) != 2 {
+		return false, false, false
+	}
+	a, b := c.Args[0], c.Args[1]
+	if a.K != smt.KStr {
+		return false, false, false
+	}
+	if !isVarTerm(a) {
+		a, b = b, a
+	}
+	if !isVarTerm(a) || !(b.Const || isVarTerm(b)) {
+		return false, false, false
+	}
+	// index the literals on a and b
+	type info struct {
+		eq    *smt.Term
+		neq   []*smt.Term
+		other bool
+	}
+	idx := map[string]*info{a.S: {}}
+	if !b.Const {
+		if b.S == a.S {
+			return false, false, false
+		}
+		idx[b.S] = &info{}
+	}
+	for _, p := range in.PC {
+		mentions := false
+		for _, s := range p.Syms {
+			if _, ok := idx[s]; ok {
+				mentions = true
+			}
+		}
+		if !mentions {
+			continue
+		}
+		q, n := p, false
+		if q.Op == "not" && len(q.Args) == 1 {
+			q, n = q.Args[0], true
+		}
+		if q.Op == "=" && len(q.Args) == 2 {
+			x, y := q.Args[0], q.Args[1]
+			if !isVarTerm(x) {
+				x, y = y, x
+			}
+			if isVarTerm(x) && y.Const {
+				if inf, ok := idx[x.S]; ok {
+					if n {
+						inf.neq = append(inf.neq, y)
+					} else {
+						inf.eq = y
+					}
+					continue
+				}
+			}
+		}
+		for _, s := range p.Syms {
+			if inf, ok := idx[s]; ok {
+				inf.other = true
+			}
+		}
+	}
+	ia := idx[a.S]
+	if ia.other {
+		return false, false, false
+	}
+	decideConst := func(inf *info, k *smt.Term) (bool, bool, bool) {
+		if inf.eq != nil {
+			return true, inf.eq.Str == k.Str, false
+		}
+		for _, x := range inf.neq {
+			if x.Str == k.Str {
+				return true, false, false
+			}
+		}
+		return true, false, true
+	}
+	var d, v, bth bool
+	if b.Const {
+		d, v, bth = decideConst(ia, b)
+	} else {
+		ib := idx[b.S]
+		if ib.other {
+			return false, false, false
+		}
+		switch {
+		case ia.eq != nil && ib.eq != nil:
+			d, v, bth = true, ia.eq.Str == ib.eq.Str, false
+		case ia.eq != nil:
+			d, v, bth = decideConst(ib, ia.eq)
+		case ib.eq != nil:
+			d, v, bth = decideConst(ia, ib.eq)
+		default:
+			d, v, bth = true, false, true
+		}
+	}
+	if !d {
+		return false, false, false
+	}
+	if bth {
+		return true, false, true
+	}
+	if neg {
+		v = !v
+	}
+	return true, v, false
 }
 
 // freeBoolVar: c is a bare boolean variable (or its negation) that no path-condition conjunct mentions,
